@@ -14,7 +14,7 @@ include!("../../prelude/uf.rs");
 include!("../../prelude/status.rs");
 pub static mut H_EXT: Uf = Uf::new();
 pub static mut H_EXTRA: Uf = Uf::new();
-impl PBytes { pub fn calc_raw_data_hash(&self) -> Byte32 { unsafe { Byte32(H_EXT.apply(self.0 as u64)) } } }
+impl PBytes { pub fn calc_raw_data_hash(&self) -> Byte32 { unsafe { Byte32(H_EXT.apply(self.key())) } } }
 pub struct ExtraHashView { u: Byte32, e: Option<Byte32> }
 impl ExtraHashView {
     pub fn new(u: Byte32, e: Option<Byte32>) -> Self { ExtraHashView { u, e } }
@@ -82,7 +82,7 @@ mod harness {
         let ne: usize = kani::any(); kani::assume(ne <= 3);
         let mut hs = [HeaderView::default(); 3]; let mut us = [Byte32(0); 3]; let mut es: [Option<PBytes>; 3] = [None; 3];
         let mut i = 0;
-        while i < 3 { hs[i].extra_hash = kani::any(); us[i] = Byte32(kani::any()); let e: Option<u8> = kani::any(); es[i] = e.map(|x| PBytes(x & 3)); i += 1; }
+        while i < 3 { hs[i].extra_hash = kani::any(); us[i] = Byte32(kani::any()); let e: Option<u8> = kani::any(); es[i] = e.map(|x| PBytes::of(x % 3, kani::any(), kani::any())); i += 1; }
         let r = verify_extra_hash(&hs[..n], &us[..nu], &es[..ne]);
         if r.is_ok() {
             assert!(n == nu && n == ne, "SPEC extra hash: accepted with mismatched lengths");
